@@ -524,8 +524,8 @@ def oracle(line: str, out: str, extra: dict):
             return f"{route} {f[5]} length={ln} value={vs}: expected bits {wire(bits)}, got {wire(got)}"
         if bits is None and len(got) != FXK[m]:
             return f"{route} {f[5]} value={vs}: result has {len(got)} bits, not {FXK[m]}"
-        if extra.get("len") != len(got):
-            return f"len() = {extra.get('len')} but {len(got)} bits"
+        if "len" in extra and extra["len"] != len(got):
+            return f"len() = {extra['len']} but {len(got)} bits"
         return None
     if op == "asg":
         m, ln, cur, vs = f[3], optlen(f[5]), unwire(f[6]), f[7]
@@ -613,6 +613,17 @@ REGIONS = {
     "window_negative": r_win_negative,
     "window_offset_beyond": r_win_beyond,
 }
+
+
+def compare(out: str, model_out: str, line: str) -> bool:
+    """IMPL ≍ MODEL.  Inside a known-deviation region the model transcribes the deviant behaviour of the pinned
+    tree; there the implementation may instead already behave as the property demands (the proposed fix was
+    applied): that is agreement with the SPEC layer, not a disagreement. Anything else is compared literally."""
+    if out == model_out:
+        return True
+    if any(pred(line) for pred in REGIONS.values()):
+        return oracle(line, out, {}) is None
+    return False
 
 
 def nontrivial(line):
